@@ -57,7 +57,7 @@ import (
 func init() { register("queryroot", queryRootMain) }
 
 const (
-	rgIv      = int64(10 * 1000)                       // stored = query interval (ms)
+	rgIv      = int64(10 * 1000)                         // stored = query interval (ms)
 	rgStart   = int64(1700000000000 / 3600000 * 3600000) // start of an hour family (ms)
 	rgSlots   = 10
 	rgEnd     = rgStart + rgSlots*rgIv
@@ -84,14 +84,14 @@ var rgFieldTypes = map[string]field.Type{"sum": field.SumField, "min": field.Min
 // rgRun: one query = a placement of the points on the leaves + what a leaf without data / a failing leaf
 // answers + the delivery schedule, by send position (the order of the send stages is the root's own business)
 type rgRun struct {
-	data   *rgData
-	nleaf  int
-	place  []int    // point -> leaf (0-based)
-	kinds  []string // per leaf: data | empty | notfound | error
-	mode   []string // per send position: inline | late | lost | free
-	order  []int    // late answers: delivery order (indices into the late positions, in send order)
-	conc   bool     // late answers all at once from concurrent goroutines
-	label  string
+	data  *rgData
+	nleaf int
+	place []int    // point -> leaf (0-based)
+	kinds []string // per leaf: data | empty | notfound | error
+	mode  []string // per send position: inline | late | lost | free
+	order []int    // late answers: delivery order (indices into the late positions, in send order)
+	conc  bool     // late answers all at once from concurrent goroutines
+	label string
 }
 
 func rgLeafName(i int) string { return fmt.Sprintf("leaf-%d:9000", i+1) }
